@@ -3,7 +3,8 @@
   mirrors: effect/compressor.rs (+ builder.rs, handle.rs)
 
   Two IEEE infinities of the Rust code are made explicit so that the definitions mean the same
-  over ℝ as in floating point (the Float twin is bit-identical either way):
+  over ℝ as in floating point (the Float twin is bit-identical either way; a third one, `1.0 / ratio`
+  for a ratio of 0, is guarded in the Rust code itself since the repair: `slope`):
   * a sample of exactly 0 has `log10 = -inf`, so `(input_decibels - threshold).max(0.0) = 0`
     (for every finite threshold) — `overDecibels` returns 0 there instead of using `log10 0`;
   * a zero attack/release duration gives `(-1.0 / 0.0).exp() = 0` — `speed` returns 0 there.
@@ -103,9 +104,16 @@ def follow (attackNs releaseNs : Nat) (dt over env : α) : α :=
   let duration := if over < env then releaseNs else attackNs
   KOps.r32 (over + KOps.r32 (KOps.r32 (speed duration dt) * KOps.r32 (env - over)))
 
-/-- mirrors: `10.0f32.powf(envelope * ((1.0 / ratio) - 1.0) / 20.0)` (all `f32`) -/
+/-- mirrors: `let slope = if ratio == 0.0 { 0.0 } else { (1.0 / ratio) - 1.0 };` (all `f32`; `==` is the IEEE
+    comparison, so `-0.0` counts as 0): a ratio of 0 has no reciprocal and leaves the dynamics unchanged,
+    like a ratio of 1 -/
+def slope (ratio : α) : α :=
+  if feq ratio (0.0 : α) then (0.0 : α)
+  else KOps.r32 (KOps.r32 ((1.0 : α) / ratio) - (1.0 : α))
+
+/-- mirrors: `10.0f32.powf(envelope * slope / 20.0)` (all `f32`) -/
 def reductionAmplitude (ratio env : α) : α :=
-  let gainReduction := KOps.r32 (env * KOps.r32 (KOps.r32 ((1.0 : α) / ratio) - (1.0 : α)))
+  let gainReduction := KOps.r32 (env * slope ratio)
   KOps.pow32 (10.0 : α) (KOps.r32 (gainReduction / (20.0 : α)))
 
 /-- result of one compressor frame -/
